@@ -56,6 +56,22 @@ func Family(i int, seed int64) (*GenesisSpec, int) {
 	}
 }
 
+// BigUnitFamily: voting powers of the order of 10^17 (the consensus engine accepts a total of 2^60 - 1, about 1.15 x 10^18):
+// three validators of 196608, 98304 and 294912 x 10^12 (multiples of 3 x 2^15 units, so that halves and two-thirds stay whole
+// numbers of units), balances of 3 x 10^36 (total supply far below 2^128).  Powers are
+// rendered in units of 10^12 (PowerUnit); every amount bonded in such a history must be a multiple of 10^30.
+func BigUnitFamily(seed int64) (*GenesisSpec, int) {
+	g := &GenesisSpec{ChainID: "verif-chain", Seed: seed, Gov: DefaultGov(), PowerUnit: 1000000000000}
+	for j := 0; j < 7; j++ {
+		g.Balances = append(g.Balances, "3000000000000000000000000000000000000")
+	}
+	u := g.PowerUnit
+	g.Validators = []GenVal{{1, 196608 * u}, {2, 98304 * u}, {3, 294912 * u}}
+	g.Gov["maxValidatorCnt"] = "5"
+	g.Gov["minValidatorStake"] = "2000000000000000000000000000000" // 2 units
+	return g, 7
+}
+
 // BoundaryFamily has balances near 2^200 so that huge amounts can succeed.
 func BoundaryFamily(seed int64) (*GenesisSpec, int) {
 	g, n := Family(0, seed)
